@@ -293,6 +293,8 @@ func nameFree(name string) bool {
 
 type mismatch struct {
 	key     string
+	prefix  string   // context and kind of the difference
+	hits    []string // single-tag flips (+tag / -tag) each of which explains the difference; nil: not of that kind
 	summary string
 	files   map[string]string
 	count   int
@@ -326,6 +328,93 @@ func (s *state) record(key, summary string, files func() map[string]string) {
 		s.mism[key] = m
 	}
 	m.count++
+}
+
+// recordFlip records a difference that flipping any one of the tags in hits
+// (a comma-separated list of +tag / -tag) would explain.
+func (s *state) recordFlip(prefix, hits, summary string, files func() map[string]string) {
+	key := prefix + ":" + hits
+	s.record(key, summary, files)
+	if hits == "unexplained" || hits == "incjs" {
+		return
+	}
+	s.mu.Lock()
+	m := s.mism[key]
+	if m.hits == nil {
+		m.prefix = prefix
+		for _, h := range strings.Split(hits, ",") {
+			if h != "cgofile" {
+				m.hits = append(m.hits, h)
+			}
+		}
+	}
+	s.mu.Unlock()
+}
+
+// report turns the recorded differences into cases. Differences that a single
+// tag explains are merged greedily: the tag that explains most evaluations
+// first (one case per tag, classifier key flip:<+|-><tag>).
+func (s *state) report() {
+	c := s.c
+	var flips, others []*mismatch
+	for _, m := range s.mism {
+		if len(m.hits) > 0 {
+			flips = append(flips, m)
+		} else {
+			others = append(others, m)
+		}
+	}
+	sort.Slice(others, func(i, j int) bool { return others[i].key < others[j].key })
+	for _, m := range others {
+		c.Report(core.Case{Keys: []string{m.key}, Summary: fmt.Sprintf("%s [%d evaluations in group %s]", m.summary, m.count, m.key), Files: m.files})
+	}
+	for len(flips) > 0 {
+		tally := map[string]int{}
+		for _, m := range flips {
+			for _, h := range m.hits {
+				tally[h] += m.count
+			}
+		}
+		best := ""
+		for h, n := range tally {
+			if best == "" || n > tally[best] || (n == tally[best] && h < best) {
+				best = h
+			}
+		}
+		var rest []*mismatch
+		var rep *mismatch
+		total := 0
+		ctxs := map[string]int{}
+		for _, m := range flips {
+			has := false
+			for _, h := range m.hits {
+				if h == best {
+					has = true
+				}
+			}
+			if !has {
+				rest = append(rest, m)
+				continue
+			}
+			total += m.count
+			ctxs[m.prefix] += m.count
+			if rep == nil || len(m.hits) < len(rep.hits) || (len(m.hits) == len(rep.hits) && m.key < rep.key) {
+				rep = m
+			}
+		}
+		flips = rest
+		var cl []string
+		for k, n := range ctxs {
+			cl = append(cl, fmt.Sprintf("%s x%d", k, n))
+		}
+		sort.Strings(cl)
+		state := "satisfied although the specification says it is not"
+		if best[0] == '-' {
+			state = "not satisfied although the specification says it is"
+		}
+		c.Report(core.Case{Keys: []string{"flip:" + best},
+			Summary: fmt.Sprintf("tag %q is %s: %s [%d evaluations; contexts: %s]", best[1:], state, rep.summary, total, strings.Join(cl, ", ")), Files: rep.files})
+	}
 }
 
 func (s *state) mismatches() int {
@@ -418,9 +507,22 @@ func (s *state) culprit(f *fileSpec, e, i int, obs string) string {
 	return strings.Join(hit, ",")
 }
 
+// modeOf names the way a directory was loaded (for replay).
+func modeOf(how string) string {
+	switch {
+	case strings.HasPrefix(how, "Import(\".\", GOROOT"):
+		return "stdrel"
+	case strings.HasPrefix(how, "Import(\"vp/"):
+		return "bypath"
+	case strings.HasPrefix(how, "Import(\"vstd/"):
+		return "std"
+	}
+	return "local"
+}
+
 // scenarioFiles is the replay form of (directory, environment, tags).
 func scenarioFiles(env envSpec, tags []string, how string, dir string, files map[string]string, expect map[string]string, extra map[string]any) map[string]string {
-	m := map[string]any{"env": env, "tags": tags, "how": how, "dir": dir, "files": files, "expect": expect}
+	m := map[string]any{"env": env, "tags": tags, "how": how, "mode": modeOf(how), "dir": dir, "files": files, "expect": expect}
 	for k, v := range extra {
 		m[k] = v
 	}
@@ -433,7 +535,9 @@ func scenarioFiles(env envSpec, tags []string, how string, dir string, files map
 }
 
 // compare checks one Import result against the prediction.
-func (s *state) compare(d *dirSpec, e, i int, r importResult, how string) {
+// class != "" puts every difference into the group of that name (a scenario
+// class with its own classifier key).
+func (s *state) compare(d *dirSpec, e, i int, r importResult, how string, class string) {
 	exp, loadable := d.expect(e, i)
 	env := envs[e]
 	tags := s.usets[i]
@@ -477,6 +581,9 @@ func (s *state) compare(d *dirSpec, e, i int, r importResult, how string) {
 		s.infra(fmt.Errorf("%s: package %s reported Goroot=%v (the scenario set-up did not take effect)", ctxDesc, d.name, r.Goroot))
 		return
 	}
+	if corrupt == "obs" && e == 0 && i == 0 && d.name == "p00000" && len(r.Go) > 0 {
+		r.Go = r.Go[1:] // sensitivity self-test: pretend Import lost a file
+	}
 	obs := observed(r)
 	for _, f := range d.files {
 		want := exp[f.Name]
@@ -504,9 +611,12 @@ func (s *state) compare(d *dirSpec, e, i int, r importResult, how string) {
 			continue
 		}
 		cp := s.culprit(f, e, i, got)
-		key := fmt.Sprintf("%s:%s_as_%s:%s", env.key(), want, got, cp)
 		f := f
-		s.record(key, fmt.Sprintf("%s: file %s with constraint %q must be in %s, Import reported %s (differing tag: %s)", ctxDesc, f.Name, f.X.Text, want, got, cp),
+		rec := s.recordFlip
+		if class != "" {
+			rec = func(_, _ string, summary string, files func() map[string]string) { s.record(class, summary, files) }
+		}
+		rec(fmt.Sprintf("%s:%s_as_%s", env.key(), want, got), cp, fmt.Sprintf("%s: file %s with constraint %q must be in %s, Import reported %s (differing tag: %s)", ctxDesc, f.Name, f.X.Text, want, got, cp),
 			func() map[string]string {
 				fl := map[string]string{f.Name: f.content(d.name), "zz_anchor.go": render(d.name, "zz_anchor.go", "", false)}
 				ex := map[string]string{f.Name: want, "zz_anchor.go": "GoFiles"}
@@ -761,6 +871,14 @@ func Run(c *core.Ctx, pool *gjs.Pool) {
 
 	// directories: ~50 files each, file names unique inside a directory
 	rng.Shuffle(len(all), func(i, j int) { all[i], all[j] = all[j], all[i] })
+	if corrupt == "pred" {
+		for _, f := range all {
+			if !f.incjs() && !f.hidden() && !isStemName(f.Name) {
+				f.Masks[0] ^= 1
+				break
+			}
+		}
+	}
 	const perDir = 50
 	ndirs := (len(all) + perDir - 1) / perDir
 	dirs := make([]*dirSpec, ndirs)
@@ -823,7 +941,7 @@ func Run(c *core.Ctx, pool *gjs.Pool) {
 		}
 		atomic.AddInt64(&s.calls, int64(len(res)))
 		for i := range res {
-			s.compare(d, e, i, res[i], how)
+			s.compare(d, e, i, res[i], how, "")
 		}
 	}
 	// batches of directories: write, load under every environment, remove.
@@ -873,6 +991,24 @@ func Run(c *core.Ctx, pool *gjs.Pool) {
 					importDir(d, e)
 				}
 			}
+			// a standard-library directory named by a relative path is still a
+			// standard-library package (go/build reports Goroot and its import path)
+			for k, d := range dirs[lo:hi] {
+				if (lo+k)%16 != 1 {
+					continue
+				}
+				how := "Import(\".\", GOROOT/src/vstd/" + d.name + ", 0) with GOPHERJS_GOROOT pointing at a tree that contains src/vstd"
+				res, err := st.pools[1].call(importJob{Path: ".", SrcDir: filepath.Join(st.fakeRoot, "src", "vstd", d.name), TagSets: usets})
+				if err != nil {
+					s.infra(err)
+					return
+				}
+				atomic.AddInt64(&s.calls, int64(len(res)))
+				c.Add("imports_std_by_relative_path", len(res))
+				for i := range res {
+					s.compare(d, 1, i, res[i], how, "std_by_relative_path")
+				}
+			}
 			if b != 0 {
 				for _, d := range dirs[lo:hi] {
 					os.RemoveAll(filepath.Join(st.modDir, d.name))
@@ -902,7 +1038,7 @@ func Run(c *core.Ctx, pool *gjs.Pool) {
 				atomic.AddInt64(&s.calls, int64(len(res)))
 				c.Add("imports_by_path", len(res))
 				for x := range res {
-					s.compare(d, e, idx[x], res[x], "Import(\"vp/"+d.name+"\", moduleRoot, 0) in module mode")
+					s.compare(d, e, idx[x], res[x], "Import(\"vp/"+d.name+"\", moduleRoot, 0) in module mode", "")
 				}
 			}
 		})
@@ -934,21 +1070,18 @@ func Run(c *core.Ctx, pool *gjs.Pool) {
 	if s.disc > 0 {
 		fmt.Printf("note: %d evaluations discarded because a reference implementation of the standard library disagrees with the specification\n", s.disc)
 	}
-	keys := make([]string, 0, len(s.mism))
-	for k := range s.mism {
-		keys = append(keys, k)
-	}
-	sort.Strings(keys)
-	for _, k := range keys {
-		m := s.mism[k]
-		c.Report(core.Case{Keys: []string{k}, Summary: fmt.Sprintf("%s [%d evaluations in group %s]", m.summary, m.count, k), Files: m.files})
-	}
+	s.report()
 	for k := 0; k < 5; k++ {
 		f := all[k*len(all)/5]
 		c.Sample(map[string]any{"file": f.Name, "constraint": f.X.Text, "when_selected": f.On, "when_not": f.Off,
 			"selected_mask_per_env": f.Masks, "envs": envs, "user_sets_bit_order": usets})
 	}
 }
+
+// corrupt (VERIF_C18_CORRUPT) is a self-test of the binding: "obs" drops one
+// file from one observed GoFiles list (the check must report a violation),
+// "pred" flips one predicted bit (the guard must discard that evaluation).
+var corrupt = os.Getenv("VERIF_C18_CORRUPT")
 
 func isStemName(n string) bool {
 	switch n {
@@ -979,6 +1112,7 @@ func replay(c *core.Ctx, dir string) {
 		Files  map[string]string `json:"files"`
 		Expect map[string]string `json:"expect"`
 		Real   string            `json:"real_package"`
+		Mode   string            `json:"mode"`
 	}
 	if err := json.Unmarshal(b, &sc); err != nil {
 		c.Infra(err)
@@ -1010,6 +1144,12 @@ func replay(c *core.Ctx, dir string) {
 			os.WriteFile(filepath.Join(p, n), []byte(content), 0o644)
 		}
 		j, _ := st.job(e, sc.Dir, [][]string{sc.Tags})
+		switch sc.Mode {
+		case "stdrel":
+			j = importJob{Path: ".", SrcDir: filepath.Join(st.fakeRoot, "src", "vstd", sc.Dir), TagSets: [][]string{sc.Tags}}
+		case "bypath":
+			j = importJob{Path: "vp/" + sc.Dir, SrcDir: st.modDir, TagSets: [][]string{sc.Tags}, Suffix: "min"}
+		}
 		res, err = st.pools[e].call(j)
 	}
 	if err != nil {
